@@ -52,7 +52,7 @@ class C14(Engine):
         "real": ["history.json JsonHistoryGC (files(), run(), per-unit selection)", "JsonHistory.run_gc / flush / append (live sessions)", "lib.lazyjson", "history.sqlite SqliteHistoryGC / _xh_sqlite_delete_records", "tools.to_history_tuple", "real files, sqlite3"],
         "stub": ["scheduler", "clock", "boot time"],
     }
-    expected_probes = ["limit_zero", "limit_exact_fit", "limit_off_by_one", "stale_lock_unlocked", "live_session_concurrent", "corrupt_member", "refuse_expected", "noop_in_limit", "tie_in_age"]
+    expected_probes = ["limit_zero", "limit_exact_fit", "limit_off_by_one", "stale_lock_unlocked", "live_session_concurrent", "corrupt_member", "refuse_expected", "noop_in_limit", "tie_in_age", "live_session_cleared"]
 
     def warmup(self):
         procworld.warm(extra_traced=("xonsh.history.json",))
@@ -104,7 +104,8 @@ class C14(Engine):
             "force": rng.random() < 0.4,
             "size_as": rng.choice(("tuple", "str")),
             "live": live,
-            "live_ops": [[rng.choice(("append", "append", "flush")) for _ in range(rng.randint(1, 6))] for _ in range(live)],
+            "live_ops": [[rng.choice(("append", "append", "append", "flush", "flush", "clear")) for _ in range(rng.randint(1, 6))] for _ in range(live)],
+            "live_cleared_before": [rng.random() < 0.2 for _ in range(live)],  # the live session ran `history clear` before the GC starts
             "now_after": rng.choice((10.0, 100.0, 5000.0)),
             "knobs": knobs,
         }
@@ -268,6 +269,9 @@ class C14(Engine):
         lives = []
         for li in range(case["live"]):
             lh = hj.JsonHistory(filename=os.path.join(d, f"xonsh-live{li}.json"), sessionid=f"live{li}", buffersize=2, gc=False, ts=[_k.TIME_BASE + now - 1, None], locked=True)
+            if case.get("live_cleared_before", [False] * (li + 1))[li]:
+                lh.clear()
+                probes["live_session_cleared"] = probes.get("live_session_cleared", 0) + 1
             lives.append(lh)
         before = set(os.listdir(d))
         # candidates per the statement
@@ -311,6 +315,10 @@ class C14(Engine):
                         c = {"inp": f"live{li} cmd {n}\n", "rtn": 0, "ts": [_k.TIME_BASE + now + n, _k.TIME_BASE + now + n + 0.5]}
                         appended[li].append(c["inp"])
                         lh.append(c)
+                    elif op == "clear":
+                        lh.clear()
+                        del appended[li][:]
+                        probes["live_session_cleared"] = probes.get("live_session_cleared", 0) + 1
                     else:
                         lh.flush()
                 lh.flush()
